@@ -3130,6 +3130,27 @@ func (d *Document) parseDocumentRelationships() error {
 	return nil
 }
 
+// nextDocumentRelationshipID 返回一个尚未被文档关系使用的关系ID（rIdN，rId1保留给styles）。
+// 新建文档得到连续的 rId2、rId3……；对于打开的文档，已有的关系ID可以是任意的（不连续、
+// 不从rId2开始），因此必须检查候选ID是否已被占用，否则会生成重复的关系ID。
+func (d *Document) nextDocumentRelationshipID() string {
+	n := len(d.documentRelationships.Relationships) + 2
+	for {
+		id := fmt.Sprintf("rId%d", n)
+		used := false
+		for i := range d.documentRelationships.Relationships {
+			if d.documentRelationships.Relationships[i].ID == id {
+				used = true
+				break
+			}
+		}
+		if !used {
+			return id
+		}
+		n++
+	}
+}
+
 // updateNextImageID 根据已有的图片关系更新nextImageID计数器
 // 确保新添加的图片ID不会与现有图片冲突
 func (d *Document) updateNextImageID() {
